@@ -9,11 +9,12 @@ pub fn stub_parse_opts(_raw: &str) -> Result<Vec<NetworkFilterOption>, NetworkFi
 /// Input model: ASCII? . arbitrary char? . ASCII? — the smallest shape in which an offset computed from an
 /// ASCII delimiter ('@', '|', '$') can land inside a multi-byte character.
 fn split_kernel(with_tail: bool) {
+    let mut dr = crate::verif_shim::Draw::new();
     let mut s = String::new();
-    let (a, c, b): (bool, bool, bool) = (kani::any(), kani::any(), kani::any());
-    let x: u8 = kani::any();
-    let ch: char = kani::any();
-    let y: u8 = kani::any();
+    let (a, c, b): (bool, bool, bool) = (dr.bool(), dr.bool(), dr.bool());
+    let x: u8 = dr.u8();
+    let ch: char = dr.char();
+    let y: u8 = dr.u8();
     kani::assume(x < 0x80 && y < 0x80);
     if !with_tail {
         kani::assume(!b);
